@@ -62,3 +62,8 @@ def indexByte (s : Bytes) (b : Nat) : Option Nat :=
     | [], _ => none
     | x :: xs, i => if x = b then some i else go xs (i + 1)
   go s 0
+
+/-- Go's integer division on non-negative operands is `Nat` division -/
+theorem Int.tdiv_natCast (a b : Nat) : Int.tdiv (a : Int) (b : Int) = ((a / b : Nat) : Int) := by
+  rw [Int.tdiv_eq_ediv_of_nonneg (by omega)]
+  exact (Int.natCast_ediv a b).symm
